@@ -225,6 +225,10 @@ namespace nmtools::utl
             } else {
                 // not invalidating the value, for now
             }
+            // like std::vector, newly exposed elements are value-initialized
+            for (size_type i=old_size; i<new_size; i++) {
+                buffer_[i] = T{};
+            }
         }
 
         void push_back(const T& t)
